@@ -162,10 +162,12 @@ class Normalizer:
     """ast expression -> RF.  `name_cb(name)` maps a bare name to an RF (or None to make it an atom);
     `attr_cb(node)` likewise for attribute chains (e.g. self.mu -> atom '$mu')."""
 
-    def __init__(self, name_cb: Callable = None, attr_cb: Callable = None, subst: Optional[Dict[str, RF]] = None):
+    def __init__(self, name_cb: Callable = None, attr_cb: Callable = None, subst: Optional[Dict[str, RF]] = None, int_exponents: bool = False):
         self.name_cb = name_cb
         self.attr_cb = attr_cb
         self.subst = subst or {}
+        # True where every symbolic exponent is known to be an integer (loop indices): powers distribute over products
+        self.int_exponents = int_exponents
 
     def __call__(self, e) -> RF:
         return self.ev(e)
@@ -254,4 +256,22 @@ class Normalizer:
         # x ** (1/2)  and  x ** 0.5
         if ex.d.is_const() and ex.n.is_const() and ex.n.const_value() / ex.d.const_value() == Fraction(1, 2):
             return RF(Poly.atom(f"sqrt[{base.canon()}]"))
+        if self.int_exponents and len(base.n.t) == 1 and len(base.d.t) == 1:
+            # the exponent is an integer (an index): (c * x**p * y**q) ** e = c**e * (x**e)**p * (y**e)**q, (-1)**e kept as its own atom
+            def split(poly):
+                (mono, coef), = poly.t.items()
+                return mono, coef
+            (nm, nc), (dm, dc) = split(base.n), split(base.d)
+            coef = nc / dc
+            out = RF(Poly.const(1))
+            if coef < 0:
+                out = out * RF(Poly.atom(f"pow[-1;{ex.canon()}]"))
+                coef = -coef
+            if coef != 1:
+                out = out * RF(Poly.atom(f"pow[{coef};{ex.canon()}]"))
+            for a, pw in nm:
+                out = out * RF(Poly.atom(f"pow[{a};{ex.canon()}]") ** pw)
+            for a, pw in dm:
+                out = out / RF(Poly.atom(f"pow[{a};{ex.canon()}]") ** pw)
+            return out
         return RF(Poly.atom(f"pow[{base.canon()};{ex.canon()}]"))
